@@ -5,6 +5,7 @@ CONSTANTS
   Frags = {}
   Chops = {}
   Limit = 0
+  Dev = {}
 CONSTRAINT Progress
 POSTCONDITION Post
 CHECK_DEADLOCK FALSE
